@@ -130,7 +130,7 @@ Notation "'check' b 'then' k" := (if b then k else None) (at level 200, b at lev
 (* ============================================================================================ *)
 (* C16: at most one publisher; reject when busy; override closes the old one first; the current sub-stream
    is the attached publisher's (never a replaced or removed publisher's)                           *)
-Record st16 := { cur16 : option Z; up16 : bool; gens16 : list Z }.
+Record st16 := { cur16 : option Z; up16 : bool; gens16 : list Z; sready16 : bool }.
 
 Definition gens_of (l : list pevent) : list Z :=
   flat_map (fun e => match e with EPathReady g => [g] | _ => [] end) l.
@@ -146,7 +146,15 @@ Definition step16 (cf : pconf) (closed : bool) (s : st16) (x : pop * list pevent
   let '(o, evs) := x in
   let gs := gens_of evs in
   check (fresh_all (gens16 s) gs) then
-  let s1 := {| cur16 := cur16 s; up16 := up_after (up16 s) evs; gens16 := gs ++ gens16 s |} in
+  (* the static source is ready from its answered SetReady to its SetNotReady / to its stop / to Close *)
+  let sr := if has_ev ESrcStop evs then false else
+            match o with
+            | StaticReady q => match find_answer q evs with Some (AStream _) => true | _ => sready16 s end
+            | StaticNotReady => false
+            | Close => false
+            | _ => sready16 s
+            end in
+  let s1 := {| cur16 := cur16 s; up16 := up_after (up16 s) evs; gens16 := gs ++ gens16 s; sready16 := sr |} in
   (* a publisher is closed by the path only if it is the attached one *)
   check (forallb (fun p => match cur16 s with Some c => p =? c | None => false end) (pub_closes evs)) then
   (* ... and a publisher the path has closed is not attached any more *)
@@ -161,7 +169,9 @@ Definition step16 (cf : pconf) (closed : bool) (s : st16) (x : pop * list pevent
              alwaysAvailable stream refuses: the old publisher has been closed (and is detached) *)
           check (negb (existsb (fun e => is_path_ready e || is_path_not_ready e) evs)) then
           check (negb old_closed || ((code =? E_INCOMPAT) && c_aa cf && c_override cf)) then
-          Some {| cur16 := cur1; up16 := up16 s1; gens16 := gens16 s1 |}
+          (* "someone is already publishing" only when someone is, and overridePublisher is off *)
+          check (negb (code =? E_BUSY) || (negb (c_override cf) && match cur16 s with Some _ => true | None => false end)) then
+          Some {| cur16 := cur1; up16 := up16 s1; gens16 := gens16 s1; sready16 := sr |}
       | Some (AStream g) =>
           check (negb closed) then
           check (match cur16 s with
@@ -176,16 +186,16 @@ Definition step16 (cf : pconf) (closed : bool) (s : st16) (x : pop * list pevent
              stream of the path *)
           check (if c_aa cf then match gs with [] => memz g (gens16 s) | _ => false end
                  else match gs with [g'] => g =? g' | _ => false end) then
-          Some {| cur16 := Some p; up16 := up16 s1; gens16 := gens16 s1 |}
+          Some {| cur16 := Some p; up16 := up16 s1; gens16 := gens16 s1; sready16 := sr |}
       end
   | RemovePublisher p =>
       match cur16 s with
       | Some c => if c =? p
-                  then check (c_aa cf || has_ev EPathNotReady evs) then Some {| cur16 := None; up16 := up16 s1; gens16 := gens16 s1 |}
+                  then check (c_aa cf || has_ev EPathNotReady evs) then Some {| cur16 := None; up16 := up16 s1; gens16 := gens16 s1; sready16 := sr |}
                   else Some s1
       | None => Some s1
       end
-  | Close => Some {| cur16 := None; up16 := up16 s1; gens16 := gens16 s1 |}
+  | Close => Some {| cur16 := None; up16 := up16 s1; gens16 := gens16 s1; sready16 := sr |}
   | _ => Some s1
   end.
 
@@ -194,11 +204,12 @@ Definition step16 (cf : pconf) (closed : bool) (s : st16) (x : pop * list pevent
 Definition sub_ok16 (cf : pconf) (s : st16) (osub : sub) : bool :=
   match osub with
   | SNone => negb (up16 s)
-  | SOffline => up16 s && c_aa cf && negb (match cur16 s with Some _ => true | None => false end)
+  | SOffline => up16 s && c_aa cf && negb (match cur16 s with Some _ => true | None => false end) && negb (sready16 s)
   | SPub p => up16 s && match cur16 s with Some c => p =? c | None => false end
-  | SStatic => up16 s && c_static cf
+  | SStatic => up16 s && c_static cf && sready16 s
   end
-  && match cur16 s with Some c => sub_eqb osub (SPub c) | None => true end.
+  && match cur16 s with Some c => sub_eqb osub (SPub c) | None => true end
+  && (negb (sready16 s) || sub_eqb osub SStatic).
 
 (* after every step of a publisher path: a stream exists iff a publisher is attached; an alwaysAvailable
    path has its stream from creation to Close *)
@@ -218,7 +229,7 @@ Definition step16' (cf : pconf) (acc : st16 * bool) (x : pop * list pevent * sub
 Definition spec_fail_c16 (c : pcase) : bool :=
   match c with
   | PCase cf i isub steps =>
-      let s0 := {| cur16 := None; up16 := up_after false i; gens16 := gens_of i |} in
+      let s0 := {| cur16 := None; up16 := up_after false i; gens16 := gens_of i; sready16 := false |} in
       negb (fresh_all [] (gens_of i) && Bool.eqb (up16 s0) (c_aa cf) && sub_ok16 cf s0 isub)
       || match mrun (step16' cf) (s0, false) steps with
          | Some _ => false
